@@ -63,6 +63,25 @@ theorem roundtrip (t : Aead) (n : Node) (from_ idx : Nat) (s r : Session) (h : P
     exact this
   rw [hd]
   simp only [ProtoHdr.decode_encode _ hpr]
+/-- **Round trip through `decode_packet`**: the clean datagram is handed to `post_recv` of the mirrored
+session with the identical header and payload; what `receive` answers is what `post_recv` says about
+that header (new / existing exchange, duplicate, no exchange). -/
+theorem roundtrip_receive (t : Aead) (n : Node) (from_ idx : Nat) (s r : Session) (h : PacketHdr)
+    (payload ct : Bytes)
+    (hs : s.isEncrypted = true) (hr : r.isEncrypted = true)
+    (hkey : r.decKey = s.encKey) (hnode : r.peerNode.getD 0 = s.localNode)
+    (hpl : h.plain.WF) (hpr : h.proto.WF)
+    (hfind : findRx n from_ h.plain = some idx) (hidx : n[idx]? = some r) :
+    receive (mkRec s h payload ct :: t) n from_ (s.encode h payload ct).1 =
+      (match (r.postRecv h).1 with
+        | .error e => Outcome.err e
+        | .ok nw => Outcome.ok idx nw h payload,
+       n.set idx (r.postRecv h).2) := by
+  unfold receive
+  rw [roundtrip t n from_ idx s r h payload ct hs hr hkey hnode hpl hpr hfind hidx]
+  simp only [hidx]
+  cases (r.postRecv h).1 <;> rfl
+
 /-- what `decodeStage` did when it answered `decoded` -/
 theorem decoded_inv {t : Aead} {n : Node} {from_ idx : Nat} {dg p : Bytes} {h : PacketHdr}
     (hb : BytesOK dg) (hd : decodeStage t n from_ dg = .decoded idx h p) :
